@@ -115,6 +115,15 @@ def search_c06():
                     return _fail('_dual_bootstrap', inp, out, f'>= {c}',
                                  f'the dual-bootstrap combination falls below the corrected single-factor ({nm}) variance '
                                  'that is itself below the two-factor variance')
+    from rsatoolbox.util.inference_util import t_test_0
+    from scipy import stats
+    for dof in (1, 4, 20):
+        for e, v in itertools.product([-2.0, -0.5, 0.0, 0.5, 2.0], [0.0, 1e-20, 0.25, 4.0]):
+            p = float(t_test_0(np.array([[e]]), np.array([v]), dof=dof)[0])
+            want = 1 - stats.t.cdf(e / np.sqrt(max(v, np.finfo(float).eps)), dof)
+            if not (0 <= p <= 1) or abs(p - want) > 1e-12:
+                return _fail('t_test_0', dict(evaluation=e, variance=v, dof=dof), p, float(want),
+                             'the against-zero p-value is not the one-sided t-test of the evaluation')
     for n_pattern, n_rdm in itertools.product(ns, ns):
         for v in vals:
             out = float(_correct_1d(np.float64(v), n_pattern, n_rdm))
